@@ -1,6 +1,6 @@
 (* Executable correspondence checker for C02 (KNN / join-provenance neighbor scores through the ADD path). *)
 From Coq Require Import List Arith ZArith QArith Qabs Bool.
-From DS Require Import Util.SumQ Spec.Shapley Model.ADD Spec.Count Spec.Knn Model.ShapleyAdd Check.Harness.
+From DS Require Import Util.SumQ Spec.Shapley Model.ADD Spec.Count Spec.Knn Model.Oracle Model.ShapleyAdd Check.Harness.
 Import ListNotations.
 Local Open Scope Q_scope.
 
@@ -12,6 +12,7 @@ Record case := mkCase {
   c_tol : Q;
   i_scores : list Q;                    (* impl: neighbor with nn_k = K *)
   i_bruteforce : option (list Q);       (* impl: bruteforce over a K-nearest-neighbour classifier utility (same data) *)
+  i_compiled : option (add * list (list loc));   (* impl: what compile() returns for this provenance and tally type *)
 }.
 
 Definition close (tol a b : Q) : bool := Qle_bool (Qabs (a - b)) tol.
@@ -33,7 +34,8 @@ Definition spec_scores_sorted (c : case) : list Q :=
 
 Definition check (c : case) : bool * bool * bool :=
   let m := model_scores c in let s := spec_scores c in
-  ( close_list (c_tol c) (i_scores c) m,
+  ( close_list (c_tol c) (i_scores c) m
+      && match i_compiled c with Some (d, locs) => valid_compiled (prob_of c []) d locs | None => true end,
     close_list (c_tol c) (i_scores c) s && close_list (c_tol c) (i_scores c) (spec_scores_sorted c)
       && match i_bruteforce c with Some b => close_list (c_tol c) (i_scores c) b | None => true end,
     eqb_qs m s ).
